@@ -159,18 +159,28 @@ def named(R, b, v, bs, sk, nf, sp, fields, container, variant_ident):
     R.add("C07.KEYS")
     got = [a["key"] for a in nf.arms]
     want = [f["key"] for f in live]
-    if got != want:
+    # C07 is about *which key feeds which field* (the order of the comparisons is C09's business: accepted list)
+    if sorted(got) != sorted(want):
         R.bad("C07.KEYS", body, "fields are read from keys %s, the effective keys are %s%s" % (got, want, where), b.span)
         if variant_ident is not None:
             R.bad("C10.VARIANTFIELDS", body, "after the tag selected variant %s its fields are read from keys %s, that variant's own rules give %s" % (variant_ident, got, want), b.span)
     else:
         R.sample("C07", {"type": sp["name"] + where, "keys": got})
-    for a, f in zip(nf.arms, live):
+    by_key = {f["key"]: f for f in live}
+    arm_field = {}
+    for a in nf.arms:
         R.add("C07.ARM")
+        f = by_key.get(a["key"])
+        if f is None:
+            continue
+        arm_field[a["key"]] = f
         if set(a["assigned"].keys()) != {f["ident"]}:
             R.bad("C07.ARM", body, "the arm for key `%s` fills %s instead of field `%s`%s" % (a["key"], sorted(a["assigned"].keys()), f["ident"], where), b.span)
         if len(a["children"]) != 1:
             R.bad("C07.ARM", body, "the arm for key `%s` deserialises %d values%s" % (a["key"], len(a["children"]), where), b.span)
+    R.add("C09.ORDER")
+    if sorted(got) == sorted(want) and got != want and container["deny"] is not None:
+        R.bad("C09.ORDER", body, "the keys are compared in the order %s, not in the declaration order %s of the non-skipped fields (the accepted list follows the same order)%s" % (got, want, where), b.span)
     # every field of the built value comes from its own state local
     R.add("C07.BUILD")
     if nf.build is None:
@@ -215,7 +225,8 @@ def named(R, b, v, bs, sk, nf, sp, fields, container, variant_ident):
             if nd != 1:
                 R.bad("C08.SKIP", body, "skipped field `%s` is written %d times (it must keep its default)%s" % (f["ident"], nd, where), b.span)
     # arms never assign Missing; the failure path assigns Err
-    for a, f in zip(nf.arms, live):
+    pairs = [(a, by_key[a["key"]]) for a in nf.arms if a["key"] in by_key]
+    for a, f in pairs:
         R.add("C08.ARMSTATE")
         variants = set()
         for bb in a["region"]:
@@ -343,7 +354,7 @@ def named(R, b, v, bs, sk, nf, sp, fields, container, variant_ident):
             if fb_sites[0].handling != "switched" or (nf.acc is not None and fb_sites[0].acc != nf.acc):
                 R.bad("C09.FALLBACK", body, "the unknown-key report is not accumulated like the other reports (earlier reports of this container are forgotten)%s" % where, b.span)
     # ----- C11: from / try_from / field-level error type per arm
-    for a, f in zip(nf.arms, live):
+    for a, f in pairs:
         arm_conv(R, b, v, bs, sk, nf, a, f, container, where)
 
 
